@@ -71,6 +71,13 @@ CLAIMED = {
             note="Trusted: Coq kernel, extraction+driver, harness. UCB's bonus (sqrt/log) is taken from the learner; Corral's root search is not modelled - its multiplier is recovered from the result and checked to explain every weight; "
                  "that the search always ends and picks a root below the first pole is searched (stress histories), not proved (partial). Fixed needs action sets of its PMF's length.",
             technique="Coq proof (exact-rational policy models, state-independent validity) + extracted-model correspondence + per-round oracle", design="§5 C16"),
+ "C10": dict(text="Coq theorems (C10/Props.v), polymorphic in the action types: for ANY representation change f that keeps the offered actions pairwise distinct, the re-keyed reward function DiscreteReward(map f A, map r A) gives f(A_i) exactly r(A_i) "
+                  "for every old reward function r; BinaryReward re-keyed through the position of its argmax agrees on all offered actions; the logged action keeps its position; compositions stay injective; one-hot encoding is injective; "
+                  "a reward function that is not re-keyed returns 0 (the former Sparsify/Densify defect). The extracted model predicts the new reward vector from the equality classes of the implementation's old and new actions; "
+                  "a before/after oracle compares rewards, feedbacks and the logged action for every representation filter and random type-compatible chains.",
+            note="Trusted: Coq kernel, extraction+driver, harness. The encoders (EncodeCatRows, pipes.Flatten, _make_sparse, _make_dense) are not modelled: their injectivity on each generated action set is a checked precondition (hash collisions and noise collisions are skipped); "
+                 "Batch/Unbatch is covered by C09; reward noise is excluded by design.",
+            technique="Coq proof (polymorphic re-keying lemma) + extracted-model correspondence + before/after oracle", design="§5 C10"),
 }
 NA_REASON = "check not built yet in this revision (planned, see DESIGN.md §8); no claim is made"
 def main():
